@@ -368,6 +368,44 @@ fn c07_regions(g: &Arc<Grammar>, d: usize, cfgs: &[Cfg], all_spellings: bool) ->
                         o3::c07(&x, pl, c, ctx);
                     }
                 }
+                // two regions: [i, j) closed, then a second one from k to the end of the file
+                for j in i..=n {
+                    if j < n && frozen[j] {
+                        continue;
+                    }
+                    for k in j..=n {
+                        if k < n && frozen[k] {
+                            continue;
+                        }
+                        let sp = (i + j + k) % o3::TOGGLE_OFF.len();
+                        let mut x = String::new();
+                        for p in &parts[..i] {
+                            x.push_str(p);
+                        }
+                        if i > 0 {
+                            x.push('\n');
+                        }
+                        x.push_str(o3::TOGGLE_OFF[sp]);
+                        x.push('\n');
+                        for p in &parts[i..j] {
+                            x.push_str(p);
+                        }
+                        x.push('\n');
+                        x.push_str(o3::TOGGLE_ON[sp]);
+                        x.push('\n');
+                        for p in &parts[j..k] {
+                            x.push_str(p);
+                        }
+                        x.push('\n');
+                        x.push_str(o3::TOGGLE_OFF[(sp + 1) % o3::TOGGLE_OFF.len()]);
+                        x.push('\n');
+                        for p in &parts[k..] {
+                            x.push_str(p);
+                        }
+                        ctx.sub_eval();
+                        o3::c07(&x, None, c, ctx);
+                    }
+                }
                 // a comment that is not a toggle: nothing may be kept verbatim
                 for (k, nt) in o3::NON_TOGGLES.iter().enumerate() {
                     if (i + k) % 3 != 0 && !all_spellings {
@@ -757,7 +795,7 @@ pub fn families(check: &str, tier: &str) -> Vec<Box<dyn Family>> {
                 vec![
                     tf("c04", soup(2, GAPS5, CONTEXTS), &C_QUICK[..2], or_c04()),
                     tf("c04", soup(3, &[" "], &["%"]), &one, or_c04()),
-                    tf("c04", Soup { k: 4, sigma: &SIGMA_SMALL[..36], gaps: &[" "], contexts: &["%"] }, &one, or_c04()),
+                    tf("c04", Soup { k: 4, sigma: SIGMA_SMALL, gaps: &[" "], contexts: &["%"] }, &one, or_c04()),
                     tf("c04", lit_texts(2), &C_QUICK[..2], or_c04()),
                     tf("c04", Chars { n: 3 }, &one, or_c04()),
                     seed_mutations("c04", &all_seeds(), &C_QUICK[1..2], f_c04),
@@ -817,7 +855,7 @@ pub fn families(check: &str, tier: &str) -> Vec<Box<dyn Family>> {
                 })
             };
             if quick {
-                vec![c07_regions(&g(1), 1, &C_QUICK[..2], false), asm_f(false, &C_QUICK), seeds_f(&C_QUICK)]
+                vec![c07_regions(&g(1), 1, &C_QUICK[..2], true), asm_f(false, &C_QUICK), seeds_f(&C_QUICK)]
             } else {
                 vec![
                     c07_regions(&g(1), 1, &C_QUICK, true),
@@ -1024,6 +1062,41 @@ pub fn families(check: &str, tier: &str) -> Vec<Box<dyn Family>> {
                 ]
             }
         }
+        "C18" => {
+            use crate::sched::{C18Family, FILE_KINDS};
+            let n = FILE_KINDS.len();
+            // every ordered list of file kinds up to the given length
+            let lists = |max: usize, kinds: usize| -> Vec<Vec<usize>> {
+                let mut out: Vec<Vec<usize>> = vec![];
+                let mut cur: Vec<Vec<usize>> = vec![vec![]];
+                for _ in 0..max {
+                    let mut next = vec![];
+                    for l in &cur {
+                        for k in 0..kinds {
+                            let mut m = l.clone();
+                            m.push(k);
+                            next.push(m);
+                        }
+                    }
+                    out.extend(next.iter().cloned());
+                    cur = next;
+                }
+                out
+            };
+            if quick {
+                vec![
+                    Box::new(C18Family { lists: lists(2, n), workers: vec![1, 2], modes: vec!["files", "check"], bound: 2, aliased: false }),
+                    Box::new(C18Family { lists: lists(3, 5), workers: vec![2, 3], modes: vec!["files"], bound: 1, aliased: false }),
+                    Box::new(C18Family { lists: lists(1, 4), workers: vec![2], modes: vec!["files"], bound: 2, aliased: true }),
+                ]
+            } else {
+                vec![
+                    Box::new(C18Family { lists: lists(3, n), workers: vec![1, 2, 3], modes: vec!["files", "check"], bound: 2, aliased: false }),
+                    Box::new(C18Family { lists: lists(2, n), workers: vec![2, 3], modes: vec!["files", "check"], bound: 3, aliased: false }),
+                    Box::new(C18Family { lists: lists(2, 5), workers: vec![2, 3], modes: vec!["files", "check"], bound: 3, aliased: true }),
+                ]
+            }
+        }
         _ => vec![],
     }
 }
@@ -1054,6 +1127,7 @@ pub fn replay(case: &Value, ctx: &mut Ctx) -> bool {
             o::c13(&input, ctx);
             o::c13_ident_routines(&input, ctx);
         }
+        "c18" => crate::sched::replay(case, ctx),
         "c07" => o3::c07(&input, case["prefix_len"].as_u64().map(|n| n as usize), &c, ctx),
         "c12" => o3::c12(&input, &c, ctx),
         "c15" => {
